@@ -48,7 +48,7 @@ def _case(draw, unit):
             'size': [draw(sz), draw(sz)],
             'rx': draw(core.recipe_strategy(kinds=['gaussian', 'gaussian', 'sparse', 'constant', 'zeros', 'ramp', 'spike'],
                                             scales=(0, 0, 0, 0, 4, -4, 30, -30))),
-            'rg': draw(core.recipe_strategy(kinds=['gaussian', 'gaussian', 'sparse', 'spike', 'constant'], scales=(0,))),
+            'rg': draw(core.recipe_strategy(kinds=['gaussian', 'gaussian', 'sparse', 'spike', 'constant', 'contrast', 'contrast', 'ints'], scales=(0,))),
             'mode': draw(st.sampled_from(['symmetric', 'symmetric', 'zero'])) if order == 1 else 'symmetric',
             'permuted_cotangent': draw(st.booleans()), 'k': draw(st.integers(0, 10**6))}
 
